@@ -327,6 +327,42 @@ pub fn classify(sys: &Sys) -> Result<(Band, SlackCert), String> {
         let y = cb.y[..sys.m()].to_vec();
         return Ok((Band::Thick, SlackCert { t: cb.t, x: cb.x, y, ycap: cb.ycap }));
     }
+    // Far regions (added after the fourth seeding round: changes that wrongly prune wide regions lying beyond
+    // |x| > 1e6 were invisible behind the box above): a region also counts as non-empty by a margin if it has
+    // a point x with |x_i| <= 2^27 whose uniform slack t is at least 1e-4 AND at least 2^-20 |x_i| for every
+    // i - i.e. it is wide *relative to where it lies*. The sliver of oracle error (f) (width 1e-4 at 5e15)
+    // fails this test by ten orders of magnitude; a half-space x0 >= 3e6 passes it with t = 3e6.
+    if sys.n > 0 {
+        let n = sys.n;
+        let mut aug = Sys::new(n + 1);
+        for (row, b) in sys.a.iter().zip(sys.b.iter()) {
+            let mut r = row.clone();
+            r.push(Q::one());
+            aug.push(r, b.clone());
+        }
+        let rel = Q::int(1).div(&Q::int(1 << 20));
+        let far = Q::int(1 << 27);
+        for j in 0..n {
+            for sg in [1i64, -1] {
+                let mut r = vec![Q::zero(); n + 1];
+                r[j] = if sg > 0 { rel.clone() } else { rel.neg() };
+                r[n] = Q::int(-1);
+                aug.push(r, Q::zero());
+                let mut r2 = vec![Q::zero(); n + 1];
+                r2[j] = Q::int(sg);
+                aug.push(r2, far.clone());
+            }
+        }
+        let mut r = vec![Q::zero(); n + 1];
+        r[n] = Q::int(-1);
+        aug.push(r, band.neg());
+        let ca = max_slack(&aug, &Q::one())?;
+        if !ca.t.is_neg() && aug.contains(&ca.x) {
+            let t = ca.x[n].clone();
+            let x = ca.x[..n].to_vec();
+            return Ok((Band::Thick, SlackCert { t, x, y: vec![Q::zero(); sys.m()], ycap: Q::zero() }));
+        }
+    }
     let cert = max_slack(sys, &Q::one())?;
     let b = if cert.t.le(&band.neg()) { Band::Empty } else { Band::Thin };
     Ok((b, cert))
